@@ -12,7 +12,12 @@ Local Open Scope Z_scope.
 (* The schedules the harness uses. *)
 Inductive csched :=
 | Every (d : Z)             (* cron.Every(d) / "@every <d>": d = the duration asked for, in ns *)
-| Instants (l : list Z).    (* harness's own cron.Schedule: first listed instant after t, else zero *)
+| Instants (l : list Z)     (* harness's own cron.Schedule: first listed instant after t, else zero *)
+| Wall (off p ph : Z).      (* a parsed spec ("M * * * *": p = 1 h, ph = M min; "M H * * *": p = 24 h,
+                               ph = H h + M min) with no TZ=: its fields are read on the wall clock of
+                               the zone of the time it is given - the Cron's location.  off = that
+                               zone's offset + the harness's time base (ns): the schedule fires at the
+                               instants t with (t + off - ph) mod p = 0 *)
 
 Definition sec : Z := 1000000000.
 
@@ -25,6 +30,8 @@ Definition cnext (s : csched) (t : Z) : option Z :=
   match s with
   | Every d => Some (t + (every_delay d - t mod sec))
   | Instants l => find (fun x => t <? x) l
+  | Wall off p ph => let p' := if p <=? 0 then sec else p in
+                     Some (t + (p' - (t + off - ph) mod p'))
   end.
 
 Definition item : Type := event csched * output * list (Z * Z) * option Z.
@@ -54,7 +61,10 @@ Definition item_ok (s : state csched) (it : item) : option (state csched) :=
   if negb (env_ok s ev) then None else
   match step cnext s ev with
   | Some (s', o') =>
-      if out_eqb o' o && permb pairZ_eqb (jobs_of ev o') jobs && optZ_eqb (timer s') tm
+      (* job starts: the same entries (the clock reading a job saw is judged by the oracle; it
+         exceeds the wake-up's tick value when that value lagged the clock) *)
+      if out_eqb o' o && permb Z.eqb (map fst (jobs_of ev o')) (map fst jobs) &&
+         optZ_eqb (timer s') tm
       then Some s' else None
   | None => None
   end.
@@ -92,7 +102,7 @@ Definition run_cases (cs : list (Z * case)) : list (Z * Z) := failures check_cas
    activation time, later than the given time"). *)
 Lemma cnext_later : forall s t u, cnext s t = Some u -> t < u.
 Proof.
-  intros [d|l] t u; cbn [cnext].
+  intros [d|l|off p ph] t u; cbn [cnext].
   - intro H; inversion H; subst; clear H.
     unfold every_delay, sec.
     destruct (d <? 1000000000) eqn:E.
@@ -105,6 +115,10 @@ Proof.
       assert (1 <= d / 1000000000) by (apply Z.div_le_lower_bound; lia).
       nia.
   - intro H. apply find_some in H as [_ H]. apply Z.ltb_lt in H. exact H.
+  - intro H; inversion H; subst; clear H.
+    assert (Hp : 0 < (if p <=? 0 then sec else p)).
+    { destruct (p <=? 0) eqn:E; [unfold sec; lia|apply Z.leb_gt in E; exact E]. }
+    pose proof (Z.mod_pos_bound (t + off - ph) _ Hp). lia.
 Qed.
 
 (* a small script: two entries, exact activation instant, a jump over several, remove, stop *)
